@@ -121,7 +121,15 @@ def f_regexp_substr(r: random.Random):
     g = r.randint(1, ngroups)
     ms = list(re.finditer(p, s))
     exp = ms[0].group(g) if ms else None
-    if r.random() < 0.5:
+    y = r.random()
+    if y < 0.3:
+        # a group number asks for that group whatever the other parameters are ('e' is implied)
+        flags = r.choice(["c", "", "i", "ce", "ie"])
+        ms2 = list(re.finditer(p, s, re.I if "i" in flags else 0))
+        return f"REGEXP_SUBSTR({q(s)}, {q(p)}, 1, 1, {q(flags)}, {g})", (ms2[0].group(g) if ms2 else None), "group-without-e"
+    if y < 0.4:
+        return f"REGEXP_SUBSTR({q(s)}, {q(p)}, 1, 1, 'c', 0)", (ms[0].group(0) if ms else None), "group-zero"
+    if y < 0.7:
         return f"REGEXP_SUBSTR({q(s)}, {q(p)}, 1, 1, 'e', {g})", exp, "group"
     return f"REGEXP_SUBSTR({q(s)}, {q(p)}, 1, 1, 'e')", (ms[0].group(1) if ms else None), "e-default-group"
 
@@ -160,6 +168,10 @@ def f_to_timestamp(r: random.Random):
     if x < 0.55:
         t = rand_ts(r)
         return f"TO_TIMESTAMP({q(t.isoformat(sep=' '))})", t, "TO_TIMESTAMP/string-fraction"
+    if x < 0.62:
+        # a string of digits is a number of seconds as well, and the result is a TIMESTAMP_NTZ like any other
+        n = r.choice([0, 1, 86400, 1709164800, -86400, -1, r.randint(0, 4102444800)])
+        return f"{fn}({q(str(n))})", datetime.datetime(1970, 1, 1) + datetime.timedelta(seconds=n), f"{fn}/string-of-digits"
     if x < 0.85:
         n = r.choice([0, 1, 86399, 86400, 1700000000, 2147483647, 2147483648, r.randint(0, 4102444800)])
         return f"TO_TIMESTAMP({n})", datetime.datetime(1970, 1, 1) + datetime.timedelta(seconds=n), "TO_TIMESTAMP/integer-seconds"
@@ -563,6 +575,42 @@ def _special(case: dict, env: core.Env) -> None:
         elif o["rows"] != [(40,)]:
             env.witness("C10/identifier/value", str(o["rows"]))
         env.nontrivial(("identifier", name))
+        # the name inside IDENTIFIER() denotes what the same name written directly denotes, also as the target of DML and
+        # when another schema holds a table of the same name
+        for s_ in ("CREATE SCHEMA IF NOT EXISTS DB1.S2", "CREATE OR REPLACE TABLE DB1.S2.IDT (K INT)", "CREATE OR REPLACE TABLE DB1.S1.IDT (K INT)",
+                   "INSERT INTO DB1.S1.IDT VALUES (1), (2)", "INSERT INTO DB1.S2.IDT VALUES (10), (20), (30)"):
+            cur.execute(s_)
+        tgt, home = r.choice([("s2.idt", "S2"), ("db1.s2.idt", "S2"), ("DB1.S2.IDT", "S2"), ("idt", "S1"), ("s1.idt", "S1")])
+        via = r.choice(["literal", "variable"])
+        ref = f"IDENTIFIER({q(tgt)})"
+        if via == "variable":
+            cur.execute(f"SET idt_name = {q(tgt)}")
+            ref = "IDENTIFIER($idt_name)"
+        dml = r.choice([f"INSERT INTO {ref} VALUES (99)", f"INSERT INTO {ref} (K) SELECT 98", f"UPDATE {ref} SET K = K + 1000", f"DELETE FROM {ref} WHERE K > 0",
+                        f"SELECT COUNT(*) FROM {ref}"])
+        o = core.run_stmt(cur, dml)
+        env.count("cmp_value")
+        kind = dml.split()[0]
+        if not o["ok"]:
+            env.witness(f"C10/identifier/rejected/{kind}/{'qualified' if '.' in tgt else 'plain'}/{via}", f"{dml}: {o['exc']['msg'][:200]}")
+        else:
+            s1 = sorted(x[0] for x in cur.execute("SELECT K FROM DB1.S1.IDT").fetchall())
+            s2 = sorted(x[0] for x in cur.execute("SELECT K FROM DB1.S2.IDT").fetchall())
+            base = {"S1": [1, 2], "S2": [10, 20, 30]}
+            want = dict(base)
+            if kind == "INSERT":
+                want[home] = sorted(base[home] + [99 if "99" in dml else 98])
+            elif kind == "UPDATE":
+                want[home] = [k + 1000 for k in base[home]]
+            elif kind == "DELETE":
+                want[home] = []
+            if (s1, s2) != (want["S1"], want["S2"]):
+                env.witness(f"C10/identifier/{kind}-hits-another-table/{'qualified' if '.' in tgt else 'plain'}",
+                            f"{dml} ({tgt}): S1.IDT={s1} S2.IDT={s2} expected {want}")
+            elif kind == "SELECT" and o["rows"] != [(len(base[home]),)]:
+                env.witness(f"C10/identifier/SELECT-reads-another-table/{'qualified' if '.' in tgt else 'plain'}", f"{dml}: {o['rows']}")
+            elif kind in ("INSERT", "UPDATE", "DELETE") and o["rowcount"] != {"INSERT": 1, "UPDATE": len(base[home]), "DELETE": len(base[home])}[kind]:
+                env.witness(f"C10/identifier/{kind}-count", f"{dml}: rowcount {o['rowcount']}")
     elif w == "values_columns":
         m, n = r.randint(1, 4), r.randint(1, 3)
         vals = ", ".join("(" + ", ".join(str(i * 10 + j) for j in range(m)) + ")" for i in range(n))
